@@ -324,6 +324,7 @@ ISBX, IPM = "IntegerSimulatedBinaryCrossover", "IntegerPolynomialMutation"
 SUBSET_OPS = (SAMP, XO, MUT, MSD, MSH, MA, MB)
 TOP = (TWO53 - 1) / TWO53
 LANDS = ("anti", "corr", "mixed", "const", "anti+ineq")
+L2_MAX_EXEC = 400000        # safety cap per case (never reached on the tree as found; reaching it sets exhaustive=false)
 
 
 def l2_problem(seed, n, k, land):
@@ -405,7 +406,7 @@ def l2_run(ctx, op, spec, parents, par, answers=None):
         ch = Chooser(answers)
         it = [(ch, run(ch))]
     else:
-        it = explore(run, max_exec=par.get("max_exec"))
+        it = explore(run, max_exec=par.get("max_exec", L2_MAX_EXEC))
     for ch, (out, err, ncalls) in it:
         ctx.evaluations += 1
         ctx.transitions += 1
@@ -530,7 +531,11 @@ def _l2_shards(tier, seed):
             cov = perms[:: max(1, m // 6)][:6]
             add(XO, n, k, "anti", [[[list(a), list(c)], [list(b), list(d)]] for a in cov for b in cov for c in cov[:3] for d in cov[-3:]], {}, 6)
             # plain mutation
-            add(MUT, n, k, "anti", [[list(a)] for a in perms] + [[list(a), list(b)] for a in cov for b in cov], {}, 1)
+            # (the identity on valid individuals in the tree as found; sized so that a repaired, drawing mutation stays
+            #  enumerable: single individuals with the full menu, two-row populations with a 2-value menu for n <= 4)
+            add(MUT, n, k, "anti", [[list(a)] for a in perms], {}, 1)
+            if n <= 4:
+                add(MUT, n, k, "anti", [[list(a), list(b)] for a in cov for b in cov], dict(umenu=(0.25, 0.75)), 1)
             # memetic mutations (need >= 2 objectives)
             if n > 5:
                 continue
@@ -868,11 +873,17 @@ def finalize(ctx, tier, seed):
 
 
 def replay(case, ctx):
-    if case["layer"] == "L1":
-        l1_run(ctx, case["algo"], case["spec"], answers=case["answers"])
-    elif case["layer"] == "L2":
-        par = dict(case["par"])
-        par["umenu"] = tuple(par["umenu"])
-        l2_run(ctx, case["op"], case["spec"], case["parents"], par, answers=case["answers"])
-    elif case["layer"] == "L3":
-        l3_run(ctx, case["cls"], case["tag"], case["spec"], case["pop_size"], case["ngen"], case["pin"])
+    from ..explore import ReplayDivergence
+    try:
+        if case["layer"] == "L1":
+            l1_run(ctx, case["algo"], case["spec"], answers=case["answers"])
+        elif case["layer"] == "L2":
+            par = dict(case["par"])
+            par["umenu"] = tuple(par["umenu"])
+            l2_run(ctx, case["op"], case["spec"], case["parents"], par, answers=case["answers"])
+        elif case["layer"] == "L3":
+            l3_run(ctx, case["cls"], case["tag"], case["spec"], case["pop_size"], case["ngen"], case["pin"])
+    except ReplayDivergence:
+        # the recorded environment answers do not exist on this tree (e.g. the draw is now without replacement):
+        # the recorded execution is unreachable here, hence no violation to report
+        ctx.flag("replay:recorded-answers-unreachable-on-this-tree")
